@@ -1133,6 +1133,29 @@ package p9
 //@   ensures[C04,C06] @non-request-enosys !ishandler(m) ==> isErr(result, linux.ENOSYS) && nocalls()
 //@   nopanic
 
+// ---- connection teardown (C05) ---------------------------------------------------
+// stop: waits for the running handlers (with no lock held), closes both ends of
+// the connection, then drops the fid table's own reference of every entry - the
+// reference InsertFID handed to the table (ghost: taken back just before each
+// DecRef). Proved: the order (wait first, then close, then drop), that DecRef
+// is only applied to table entries, lock preconditions. That the loop visits
+// every entry exactly once is the engine's model of map iteration (not
+// decided); that each DecRef is the last one follows from "no handler is
+// running any more" (the wait) by the counting argument on paper.
+//@ func (*connState).stop
+//@   requires[C05,C15,C16] nolocks()
+//@   requires[C05] owedNonNeg()
+//@   requires[C09] InamesSafe()
+//@   requires[C04] Ifid(cs)
+//@   modifies *
+//@   at (*fidRef).DecRef ghost owed recv += 1
+//@   at (*fidRef).DecRef requires[C05] @drops-only-after-the-handlers-finished-and-the-connection-is-closed ghost("$waited") == old(ghost("$waited")) + 1 && ncalls("local:ReadCloser.Close") == 1 && ncalls("local:WriteCloser.Close") == 1
+//@   loop 0 invariant[C05,C15,C16] nolocks() && owedNonNeg() && ghost("$waited") == old(ghost("$waited")) + 1 && ncalls("local:ReadCloser.Close") == 1 && ncalls("local:WriteCloser.Close") == 1
+//@   loop 0 invariant[C09] InamesSafe()
+//@   ensures[C05] @waits-exactly-once ghost("$waited") == old(ghost("$waited")) + 1
+//@   ensures[C15,C16] nolocks()
+//@   maypanic
+
 // ---- tags (C06, C14) ---------------------------------------------------------------
 //@ func (*connState).StartTag
 //@   requires[C15,C16] held(cs.tagMu) == 0
